@@ -288,7 +288,9 @@ func all(tier string) (sets []*engine.Scenario, bounds []int) {
 		sc.Name = "listeners-" + sc.Name
 		// besides races: outcomes no sequential order of the calls can give (an accept/read issued
 		// after Close has returned that still delivers; one connection or datagram delivered twice)
-		addS(racesAnd(sc, "call-after-close", "delivered-twice"), b(2, 3))
+		// (and, for two reads at once on one handle, a read that returns what nobody sent or a
+		// datagram returned twice)
+		addS(racesAnd(sc, "call-after-close", "delivered-twice", "datagram-mangled{concurrent-reads}", "delivery-count{concurrent-reads}"), b(2, 3))
 	}
 	for _, sc := range c14.RaceScenarios() {
 		sc.Name = "association-" + sc.Name
